@@ -115,59 +115,106 @@ theorem toks_const_exact (k q S s0 : ℤ) (hk : 0 < k) (hq : k * q = 1000000000)
   have : ((i : ℤ) : ℝ) * (q : ℝ) = (((i : ℤ) * q : ℤ) : ℝ) := by push_cast; ring
   rw [this, f2i_intCast]
 
-/-- the regenerated schedule a part of a startup profile of the harness denotes -/
+mutual
+/-- the regenerated schedule a part of a startup profile of the harness denotes; a nested composite is
+`schedule.NewComposite` of the schedules of its parts (for no part `NewComposite` returns `NewOnce(0)` and for one part
+that part itself — the same tokens and finish time as the `composite` of the list) -/
 noncomputable def schedOf : Spec.C12.Part → Sched
   | .once n => NewOnce n
   | .const ops ms => NewConst (ops : ℝ) (ms * 1000000)
+  | .constm mops ms => NewConst ((mops : ℝ) / 1000) (ms * 1000000)
   | .step f t st ms => NewInstanceStep f t st (ms * 1000000)
+  | .comp ps => .composite (schedsOf ps)
+noncomputable def schedsOf : List Spec.C12.Part → List Sched
+  | [] => []
+  | p :: ps => schedOf p :: schedsOf ps
+end
+
+theorem const_nonpos (ops : ℤ) (d : ℤ) (h0 : ops ≤ 0) : NewConst (ops : ℝ) d = NewConst 0 d := by
+  unfold NewConst
+  have hle : (ops : ℝ) ≤ 0 := by exact_mod_cast h0
+  rcases lt_or_eq_of_le hle with hlt | heq
+  · simp [hlt]
+  · simp [heq]
+
+mutual
+/-- tokens and finish time the Spec computes for a part = those of the regenerated constructor, nested composites
+included: a composite inside a composite starts where the previous part finished and hands its own finish time on -/
+theorem partToks_eq : ∀ (p : Spec.C12.Part) (s0 : ℤ) (r : List ℤ × ℤ),
+    Spec.C12.partToks p s0 = some r → r = toks (schedOf p) s0
+  | .once n, s0, r, h => by
+    simp only [Spec.C12.partToks, Option.some.injEq] at h
+    subst h
+    rw [schedOf, toks_once]
+  | .const ops ms, s0, r, h => by
+    simp only [Spec.C12.partToks] at h
+    rw [schedOf]
+    by_cases h0 : ops ≤ 0
+    · simp only [h0, if_true, Option.some.injEq] at h
+      subst h
+      rw [const_nonpos ops _ h0, toks_const0]
+    · simp only [h0, if_false] at h
+      by_cases hex : (1000000000 % ops == 0 && ms % 1000 == 0) = true
+      · simp only [hex, if_true, Option.some.injEq] at h
+        subst h
+        simp only [Bool.and_eq_true, beq_iff_eq] at hex
+        have hk : 0 < ops := by omega
+        have hq : ops * (1000000000 / ops) = 1000000000 := Int.mul_ediv_cancel' (Int.dvd_of_emod_eq_zero hex.1)
+        have hS : ms * 1000000 = (ms / 1000) * 1000000000 := by
+          have := Int.mul_ediv_cancel' (Int.dvd_of_emod_eq_zero hex.2)
+          omega
+        rw [hS, toks_const_exact ops _ (ms / 1000) s0 hk hq]
+      · simp [hex] at h
+  | .constm _ _, s0, r, h => by simp [Spec.C12.partToks] at h
+  | .step f t st ms, s0, r, h => by
+    simp only [Spec.C12.partToks, Option.some.injEq] at h
+    subst h
+    rw [schedOf, instanceStep_toks_at]
+  | .comp ps, s0, r, h => by
+    simp only [Spec.C12.partToks] at h
+    rw [schedOf, toks]
+    exact partsToksF_eq ps s0 r h
+theorem partsToksF_eq : ∀ (ps : List Spec.C12.Part) (s0 : ℤ) (r : List ℤ × ℤ),
+    Spec.C12.partsToksF ps s0 = some r → r = toksList (schedsOf ps) s0
+  | [], s0, r, h => by
+    simp only [Spec.C12.partsToksF, Option.some.injEq] at h
+    subst h
+    rw [schedsOf, toksList]
+  | p :: ps, s0, r, h => by
+    simp only [Spec.C12.partsToksF] at h
+    cases hp : Spec.C12.partToks p s0 with
+    | none => simp [hp] at h
+    | some r1 =>
+      simp only [hp] at h
+      cases hq : Spec.C12.partsToksF ps r1.2 with
+      | none => simp [hq] at h
+      | some r2 =>
+        simp only [hq, Option.some.injEq] at h
+        subst h
+        have h1 := partToks_eq p s0 r1 hp
+        have h2 := partsToksF_eq ps r1.2 r2 hq
+        rw [schedsOf, toksList, ← h1, ← h2]
+end
 
 /-- The token times the Spec computes for a startup profile (and compares with the real schedule on every case) are
-those of the composite of the REGENERATED constructors, wherever the Spec computes them at all. -/
+those of the composite of the REGENERATED constructors, wherever the Spec computes them at all — for flat and for
+nested composites. -/
 theorem partsToks_eq (ps : List Spec.C12.Part) (s0 : ℤ) (l : List ℤ) (h : Spec.C12.partsToks ps s0 = some l) :
-    l = (toksList (ps.map schedOf) s0).1 := by
-  induction ps generalizing s0 l with
-  | nil =>
-    simp only [Spec.C12.partsToks, Option.some.injEq] at h
-    simp [toksList, ← h]
-  | cons p ps ih =>
-    cases p with
-    | once n =>
-      simp only [Spec.C12.partsToks, Option.map_eq_some_iff] at h
-      obtain ⟨l', hl', rfl⟩ := h
-      simp only [List.map_cons, toksList, schedOf, toks_once]
-      rw [ih _ _ hl']
-    | const ops ms =>
-      simp only [Spec.C12.partsToks] at h
-      by_cases h0 : ops ≤ 0
-      · simp only [h0, if_true] at h
-        have hz : NewConst (ops : ℝ) (ms * 1000000) = NewConst 0 (ms * 1000000) := by
-          unfold NewConst
-          have hle : (ops : ℝ) ≤ 0 := by exact_mod_cast h0
-          rcases lt_or_eq_of_le hle with hlt | heq
-          · simp [hlt]
-          · simp [heq]
-        simp only [List.map_cons, toksList, schedOf, hz, toks_const0, List.nil_append]
-        exact ih _ _ h
-      · simp only [h0, if_false] at h
-        by_cases hex : (1000000000 % ops == 0 && ms % 1000 == 0) = true
-        · simp only [hex, if_true, Option.map_eq_some_iff] at h
-          obtain ⟨l', hl', rfl⟩ := h
-          simp only [Bool.and_eq_true, beq_iff_eq] at hex
-          have hk : 0 < ops := by omega
-          have hq : ops * (1000000000 / ops) = 1000000000 := Int.mul_ediv_cancel' (Int.dvd_of_emod_eq_zero hex.1)
-          have hS : ms * 1000000 = (ms / 1000) * 1000000000 := by
-            have := Int.mul_ediv_cancel' (Int.dvd_of_emod_eq_zero hex.2)
-            omega
-          have hih := ih _ _ hl'
-          rw [hS] at hih
-          simp only [List.map_cons, toksList, schedOf, hS, toks_const_exact ops _ (ms / 1000) s0 hk hq]
-          rw [hih]
-        · simp [hex] at h
-    | step f t st ms =>
-      simp only [Spec.C12.partsToks, Option.map_eq_some_iff] at h
-      obtain ⟨l', hl', rfl⟩ := h
-      have hih := ih _ _ hl'
-      simp only [List.map_cons, toksList, schedOf, instanceStep_toks_at]
-      rw [hih]
+    l = (toksList (schedsOf ps) s0).1 := by
+  simp only [Spec.C12.partsToks, Option.map_eq_some_iff] at h
+  obtain ⟨r, hr, rfl⟩ := h
+  rw [partsToksF_eq ps s0 r hr]
+
+/-- nesting changes nothing: a composite of composites has the tokens and the finish time of the flat sequence -/
+theorem toksList_append (a b : List Sched) (s0 : ℤ) :
+    toksList (a ++ b) s0 = ((toksList a s0).1 ++ (toksList b (toksList a s0).2).1, (toksList b (toksList a s0).2).2) := by
+  induction a generalizing s0 with
+  | nil => simp [toksList]
+  | cons x xs ih => simp [toksList, ih, List.append_assoc]
+
+theorem toks_nested (a b : List Sched) (s0 : ℤ) :
+    toksList (Sched.composite a :: b) s0 = toksList (a ++ b) s0 := by
+  rw [toksList_append]
+  simp [toksList, toks]
 
 end Pandora.Proofs.C12Shape
